@@ -134,14 +134,14 @@ def owner_of(env, reg, chain_inner_first):
     blamed = innermost entry that is inside the statement's domain; owner = nearest entry at or outside
     it that is a recipe-level widget and itself in the domain."""
     blamed = None
-    for w, size, focus in chain_inner_first:
+    for w, size, focus, qual in chain_inner_first:
         ok, _ = env.m1.in_domain(w, size)
         if not ok:
             continue
         if blamed is None:
-            blamed = (w, size, focus)
+            blamed = (w, size, focus, qual)
         if id(w) in reg and reg[id(w)][2] is w:
-            return (w, size, focus), blamed
+            return (w, size, focus, qual if blamed[0] is w else None), blamed
     return None
 
 
@@ -179,14 +179,16 @@ def evaluate(env, w, reg, size, focus):
         if not problems:
             return "ok", None
         kind, msg = problems[0]
-        return "bad", Finding((), type(w).__name__, None, RC.MODE_BY_LEN[len(size)], kind, size, focus, msg)
+        f = Finding((), type(w).__name__, None, RC.MODE_BY_LEN[len(size)], kind, size, focus, msg)
+        f.wcls = type(w).__name__
+        return "bad", f
     if ev is not None:
         kind, msg = ev.problems[0]
-        got = owner_of(env, reg, ev.chain)
+        got = owner_of(env, reg, [(cw, cs, cf, (ev.defcls if i == 0 else None)) for i, (cw, cs, cf) in enumerate(ev.chain)])
         if exc is not None:
             msg += f" [then {type(exc).__name__}: {str(exc)[:200]}]"
     else:
-        chain = [(cw, cs, cf) for cw, cs, cf, _fn in reversed(RC.traceback_chain(exc.__traceback__))]
+        chain = list(reversed(RC.traceback_chain(exc.__traceback__)))
         kind = f"raise:{type(exc).__name__}" + (f"@{phase}" if phase != "render" else "")
         tb = "".join(traceback.format_exception(type(exc), exc, exc.__traceback__, limit=-6))
         msg = f"{type(exc).__name__}: {str(exc)[:300]}\n{tb[-1500:]}"
@@ -195,16 +197,24 @@ def evaluate(env, w, reg, size, focus):
         while tbl.tb_next is not None:
             tbl = tbl.tb_next
         detail = tbl.tb_frame.f_code.co_name + ":" + re.sub(r"<.*>|\d+|'[^']*'", "#", str(exc))[:60]
+        kind += "/" + tbl.tb_frame.f_code.co_name.strip("_<>")
     if got is None:
-        owner, blamed = (w, size, focus), (w, size, focus)
+        owner, blamed = (w, size, focus, None), (w, size, focus, None)
     else:
         owner, blamed = got
-    ow, osize, ofocus = owner
+    ow, osize, ofocus, oqual = owner
     path = reg[id(ow)][0] if id(ow) in reg else ()
-    inner = type(blamed[0]).__name__ if blamed[0] is not ow else None
+    # the class named in the signature is the class whose method failed (Text for an Edit failing inside Text.render)
+    defcls = lambda wd, q: (q.split(".")[0] if q and "." in q or q else type(wd).__name__)  # noqa: E731
+    inner = defcls(blamed[0], blamed[3]) if blamed[0] is not ow else None
+    cls = type(ow).__name__ if inner else defcls(ow, oqual)
+    if cls == "Widget":
+        cls = type(ow).__name__
     if inner:
-        msg = f"(inside {type(ow).__name__}: its internal {inner} handed {blamed[1]!r}) " + msg
-    return "bad", Finding(path, type(ow).__name__, inner, RC.MODE_BY_LEN[len(osize)], kind, osize, ofocus, msg, detail)
+        msg = f"(inside {type(ow).__name__}: its internal {type(blamed[0]).__name__} handed {blamed[1]!r}) " + msg
+    f = Finding(path, cls, inner, RC.MODE_BY_LEN[len(osize)], kind, osize, ofocus, msg, detail)
+    f.wcls = type(ow).__name__
+    return "bad", f
 
 
 def probe(env, recipe, size, focus, history=()):
